@@ -53,7 +53,9 @@ Fields == {[ty |-> t, tag |-> "plain"] : t \in FieldTypes}
 \* structural variants of a model: plain struct, with an embedded struct (promoted fields), with an
 \* embedded pointer, the type itself being a slice / map / named scalar
 \* embedded_unexported: the embedded struct's TYPE is unexported (its exported fields are still promoted)
-Shapes == {"struct", "embedded", "embedded_ptr", "embedded_unexported"}
+\* embedded_nested_otherfile: the embedded struct is declared in ANOTHER FILE of the package and itself embeds a struct
+\* (fields promoted through two levels, across files)
+Shapes == {"struct", "embedded", "embedded_ptr", "embedded_unexported", "embedded_nested_otherfile"}
 
 (***************************************************************************)
 (* Instances of an (observed) schema: boundary-ish values per type, object *)
